@@ -125,7 +125,7 @@ func cutTo(valid []byte, n int) []byte {
 
 type args struct {
 	data, nonce, tag, aad []byte
-	keyLen               int // -1: the fixed key of the key kind
+	keyLen                int // -1: the fixed key of the key kind
 }
 
 // ---- areas ---------------------------------------------------------------------
